@@ -842,6 +842,67 @@ theorem bestInv_run (ops : List Op) : ValidFrom empty ops → HashOk (blocksOf o
     rw [run_snoc, blocksOf_snoc]
     exact bestInv_step a hv2 (blkInv_run l hv1) (hashOk_prefix hh) (ih hv1 (hashOk_prefix hh))
 
+/-! ## The hard state -/
+
+/-- Reference view of the hard state: the last non-empty one handed to `SaveEntry` /
+`WriteHardState`; `ClearWAL` forgets it, `ResetWAL(term, commit)` sets `(term, 0, commit)`. -/
+def hardStep (acc : Option HardState) : Op → Option HardState
+  | .save hs _ => if hs = ⟨0, 0, 0⟩ then acc else some hs
+  | .hard hs => some hs
+  | .clear => none
+  | .reset (some (t, c)) => some ⟨t, 0, c⟩
+  | _ => acc
+
+def lastHard (ops : List Op) : Option HardState := ops.foldl hardStep none
+
+theorem hard_step {s : St} (op : Op) (hok : OpOk s op) : (applyOp s op).hard = hardStep s.hard op := by
+  cases op with
+  | write items =>
+    have hv : ValidBatch (lastIdx s) items := by simpa [OpOk, Op.items] using hok
+    obtain ⟨s', f, hw, -, -, -, -, -, r, -⟩ := writeRaftEntry_valid hv
+    simp [applyOp, step, hw, hardStep, r]
+  | save hs ents =>
+    cases he : ents.isEmpty with
+    | true =>
+      simp only [applyOp, step, saveEntry, he, if_true, hardStep]
+      by_cases hz : hs = ⟨0, 0, 0⟩ <;> simp [hz]
+    | false =>
+      have hvb : ValidBatch (lastIdx s) (ents.map convertFromRaft) := by
+        simpa [OpOk, Op.items, he] using hok
+      obtain ⟨s', f, hw, -, -, -, -, -, r, -⟩ := writeRaftEntry_valid hvb
+      simp only [applyOp, step, saveEntry, he, hw, hardStep]
+      by_cases hz : hs = ⟨0, 0, 0⟩ <;> simp [hz, r]
+  | hard hs => rfl
+  | snap sn => rfl
+  | ident id => rfl
+  | restart =>
+    simp only [applyOp, step, hardStep]
+    cases hr : restart s with
+    | none => rfl
+    | some s' =>
+      unfold restart at hr
+      split at hr
+      · cases hr; rfl
+      · cases hr
+  | clear => rfl
+  | best b => rfl
+  | reset hs =>
+    cases hs with
+    | none => rfl
+    | some tc =>
+      obtain ⟨t, c⟩ := tc
+      simp only [applyOp, step, resetWAL, hardStep]
+      cases hb : (clearWAL s).best <;> rfl
+
+theorem hard_run (ops : List Op) : ValidFrom empty ops → (run empty ops).hard = lastHard ops := by
+  induction ops using snoc_induction with
+  | nil => intro _; rfl
+  | snoc l a ih =>
+    intro hv
+    obtain ⟨hv1, hv2⟩ := (validFrom_snoc empty l a).mp hv
+    rw [run_snoc, hard_step a hv2, ih hv1]
+    simp [lastHard, List.foldl_append]
+
 /-! ## ReadAll -/
 
 theorem readFrom_sound (s : St) (snapTerm : Nat) : ∀ (n i : Nat) (es : List RaftOut),
